@@ -1758,6 +1758,16 @@ def concretize(eng, t, env):
         return ("cindex", v, t[2], t[3])
     if k == "app":
         args = tuple(concretize(eng, x, env) for x in t[2])
+        # integer intrinsics of core on concrete words
+        if len(args) == 1:
+            a0 = args[0]
+            if t[1].endswith("::new_unchecked") and "NonZero" in t[1] and is_const(a0):
+                return ("nonzero", a0)
+            inner = a0[1] if a0[0] == "nonzero" and is_const(a0[1]) else (a0 if is_const(a0) else None)
+            if inner is not None and inner[1] != 0 and t[1].endswith("::trailing_zeros"):
+                return ("int", (inner[1] & -inner[1]).bit_length() - 1, "u32")
+            if inner is not None and t[1].endswith("::count_ones"):
+                return ("int", bin(inner[1]).count("1"), "u32")
         res = env.get("__apps__")
         if res is not None:
             r = res(t[1], args)
